@@ -4,6 +4,7 @@ import BFL.Model.Bounds.Sigma
 import BFL.Model.Bounds.Particles
 import BFL.Model.Bounds.Cases
 import BFL.Model.Bounds.Filters
+import BFL.Model.Bounds.Handover
 /-
 C14 — shape algebra and transcriptions (see the files of `BFL/Model/Bounds/`):
   Algebra    side conditions, writer monad, Eigen operations
